@@ -493,6 +493,35 @@ async fn scenario(sh: &Arc<Shared>) {
             // quiescent reads of everything
             for h in read_all_acked(sh, 9000).await { let _ = h.await; }
         }
+        // C20: more concurrent clients on ONE writer thread than its request queue holds (the queue is
+        // max(1000 / writer_threads, 16) requests), with timer-driven syncs only, followed by quiet probe appends:
+        // every append must still return (the periodic FlushPoll is what bounds the wait of a quiet append)
+        "burst" => {
+            // the burst: every client appends in a loop for cfg.n x 100 ms, so the queue is full across many syncer ticks
+            let deadline = Instant::now() + Duration::from_millis(cfg.n as u64 * 100);
+            let mut hs = Vec::new();
+            for c in 0..cfg.c {
+                let s2 = sh.clone();
+                hs.push(tokio::spawn(async move {
+                    for i in 0..900u64 {
+                        if Instant::now() >= deadline { break; }
+                        let op = (c as u64) * 1000 + i + 1;
+                        let sid = (c as u64) % s2.cfg.s;
+                        do_append(&s2, c, op, 0, Xv::Any, vec![(sid, Xv::Any, op * 4, 40)]).await;
+                    }
+                }));
+            }
+            for h in hs { let _ = h.await; }
+            // quiet probes: pairs of back-to-back appends; the first syncs itself (the interval has elapsed), the second
+            // arrives right after that sync and has to wait for the syncer's FlushPoll
+            for i in 0..3u64 {
+                tokio::time::sleep(Duration::from_millis(cfg.sync * 2)).await;
+                for j in 0..2u64 {
+                    let op = 900_000 + i * 2 + j;
+                    do_append(sh, 9999, op, 0, Xv::Any, vec![(0, Xv::Any, op * 4, 40)]).await;
+                }
+            }
+        }
         // C15 witness: hold the writer between the index swap and the reader-pool installation of a
         // rollover and read every acknowledged event / version meanwhile
         "window" => {
@@ -702,6 +731,14 @@ fn main() {
         _ => (env_n("SV_STRESS", if thorough { 50 } else { 8 }), if thorough { 3 } else { 1 }, if thorough { 10 } else { 3 }),
     };
     if a.prop == "C16" { let mut r = rng.fork(); gen_route(&mut r, thorough, &mut out); }
+    if a.prop == "C20" {
+        for _ in 0..(if thorough { 3 } else { 1 }) {
+            let mut r = rng.fork();
+            let c = Cfg { kind: "burst".into(), b: 64, t: 64, r: 2, c: r.range(150, 260) as usize, m: 0, s: 64, k: 1, n: r.range(3, 5) as usize,
+                          pay: 40, sync: *r.pick(&[30u64, 40, 60]), hold: 0, tsync: 0, seed: r.next() % 1_000_000 };
+            run_cfg(&rt, &c, &mut out);
+        }
+    }
     for _ in 0..n_window { let mut r = rng.fork(); let c = gen_cfg(&mut r, "window", thorough); run_cfg(&rt, &c, &mut out); }
     for _ in 0..n_late { let mut r = rng.fork(); let c = gen_cfg(&mut r, "latepoll", thorough); run_cfg(&rt, &c, &mut out); }
     for _ in 0..n_stress { let mut r = rng.fork(); let c = gen_cfg(&mut r, "stress", thorough); run_cfg(&rt, &c, &mut out); }
